@@ -94,9 +94,13 @@ def _validate_one(args):
             cand = (v[2], [(p[0], p[1]) for p in v[3]])
             if v[1] not in verdicts or len(cand[1]) < len(verdicts[v[1]][1]):
                 verdicts[v[1]] = cand
+        witnesses = {}
+        for v in _printed_values(res.output, "@W"):       # vacuity guard: antecedents that held in the trace
+            for w in v[2]:
+                witnesses.setdefault(str(w), set()).add(v[1])
         return dict(ok=res.ok, violated=res.violated, verdicts=verdicts, generated=res.generated,
-                    distinct=res.distinct, error_state=res.error_state,
-                    tail="\n".join(ln for ln in res.output.splitlines() if "@R" not in ln)[-3000:], wall=res.wall_s)
+                    distinct=res.distinct, error_state=res.error_state, witnesses={k: len(x) for k, x in witnesses.items()},
+                    tail="\n".join(ln for ln in res.output.splitlines() if "@R" not in ln and "@W" not in ln)[-3000:], wall=res.wall_s)
     finally:
         tlc.rm_scratch(scratch)
 
@@ -128,6 +132,7 @@ def validate_traces(module: str, traces: list[dict], *, cfg: str | None = None, 
     jobs_args = [(module, cfg, chunk, timeout, i) for i, chunk in enumerate(_event_chunks(traces, max_events))]
     verdicts = {}
     gen = dist = 0
+    wit: dict[str, int] = {}
     with cf.ThreadPoolExecutor(max_workers=jobs) as ex:
         for chunk_args, r in zip(jobs_args, ex.map(_validate_one, jobs_args)):
             if not r["ok"]:
@@ -135,6 +140,8 @@ def validate_traces(module: str, traces: list[dict], *, cfg: str | None = None, 
                                        f"defect of the machinery):\n{r['tail']}")
             gen += r["generated"]
             dist += r["distinct"]
+            for k, n in r.get("witnesses", {}).items():
+                wit[k] = wit.get(k, 0) + n
             for t in chunk_args[2]:
                 got = r["verdicts"].get(t["id"])
                 if got is None:
@@ -143,7 +150,10 @@ def validate_traces(module: str, traces: list[dict], *, cfg: str | None = None, 
                 if consumed != len(t["ev"]):
                     raise MachineryFailure(f"trace {t['id']}: consumed {consumed} of {len(t['ev'])} events")
                 verdicts[t["id"]] = viols
-    return verdicts, dict(trace_states=dist, trace_transitions=gen, batches=len(jobs_args))
+    stats = dict(trace_states=dist, trace_transitions=gen, batches=len(jobs_args))
+    if wit:
+        stats["antecedents_exercised_in_traces"] = dict(sorted(wit.items()))
+    return verdicts, stats
 
 
 # ----------------------------------------------------------------------------------------------
